@@ -4,5 +4,7 @@ INVARIANT EnumByOption
 INVARIANT Inheritance
 INVARIANT IdealMirrors
 INVARIANT BrokenNoticed
+INVARIANT DefaultResolves
+INVARIANT DroppedDefaultNoticed
 INVARIANT Emit
 CHECK_DEADLOCK FALSE
